@@ -191,6 +191,7 @@ def probe_types(P, E, chk):
            "U": {"T_TXT", "T_SRV", "T_MX", "T_CNAME", "T_A"}, "V": {"T_TXT", "T_SRV", "T_MX", "T_CNAME", "T_A"},
            "R": {"T_NULL", "T_PRIVATE", "T_TXT"}}
     served = {}
+    pending = []
     for letter in doc:
         for variant in (letter, letter.lower()):
             got = set()
@@ -201,8 +202,15 @@ def probe_types(P, E, chk):
                     if c.get("fn") == "write_dns" and cval(sk(c["a"][3])) not in (6, 8) and cval(sk(c["a"][4])) == ord(letter):
                         got.add(tname)
             served[variant] = got
-            chk.site(r3b, hnr, hnr.line, "codec check '%s'" % variant, got == doc[letter],
-                     "served for %s; documented %s" % (sorted(got), sorted(doc[letter])))
+            pending.append((variant, letter, got))
+    if not any(got for v_, l_, got in pending):
+        # no answer with a constant codec letter is selected by tests of in[1] and the record type: the handler has another shape
+        chk.undecided(r3b, hnr, hnr.line, "codec check handler", "the Y branch does not answer with a constant codec letter selected by "
+                      "tests of the request letter and the record type (e.g. it goes through a local flag or letter variable)")
+        return
+    for variant, letter, got in pending:
+        chk.site(r3b, hnr, hnr.line, "codec check '%s'" % variant, got == doc[letter],
+                 "served for %s; documented %s" % (sorted(got), sorted(doc[letter])))
     qt = P.func("handshake_qtypetest", "client.c")
     for tname in ("T_NULL", "T_PRIVATE", "T_TXT", "T_SRV", "T_MX", "T_CNAME", "T_A"):
         blocks, _, calls = tables.reach_under(qt, {"do_qtype": tv[tname]})
@@ -253,22 +261,31 @@ def fragprobe(P, E, chk):
     fc = P.func("fragsize_check", "client.c")
     _, _, calls = tables.reach_under(hnr, {"in[0]": ord("R")})
     blocks, _, _ = tables.reach_under(hnr, {"in[0]": ord("R")})
-    sk_consts = set()
-    for bid in blocks:
-        b = hnr.blocks[bid]
-        for e in b.elems:
-            for x in ir.walk(e):
-                if x.get("k") == "Bin" and x["op"] == "=" and pp(sk(x["a"][0])) == "buf[2]" and cval(sk(x["a"][1])) is not None:
-                    sk_consts.add(("byte2", cval(sk(x["a"][1]))))
-                if x.get("k") == "Bin" and x["op"] == "+" and pp(sk(x["a"][0])) == "v" and cval(sk(x["a"][1])) is not None:
-                    sk_consts.add(("step", cval(sk(x["a"][1]))))
-    cl = set()
-    for b, x in fc.all_nodes():
-        if x.get("k") == "Bin" and x["op"] == "!=" and "in[2]" in pp(x) and cval(sk(x["a"][1])) is not None:
-            cl.add(("byte2", cval(sk(x["a"][1]))))
-        if x.get("k") == "Bin" and x["op"] == "+" and pp(sk(x["a"][0])) == "v" and cval(sk(x["a"][1])) is not None:
-            cl.add(("step", cval(sk(x["a"][1]))))
-    chk.site(r5, fc, fc.line, "generator and checker constants", sk_consts == cl and len(cl) == 2, "server %s, client %s" % (sorted(sk_consts), sorted(cl)))
+    def probe_constants(nodes):
+        """('byte2', K): a constant stored to / compared with element 2 of a buffer; ('step', K): a constant 2..255 added
+        to a running value (x + K, x += K) - whatever the variables are called."""
+        out = set()
+        for x in nodes:
+            if x.get("k") != "Bin":
+                continue
+            op = x["op"]
+            l, r = sk(x["a"][0]), sk(x["a"][1])
+            if op in ("=", "!=", "==") and cval(r) is not None and cval(r) >= 1:
+                for y in ir.walk(l):
+                    if y.get("k") == "Sub" and cval(sk(y["a"][1])) == 2:
+                        out.add(("byte2", cval(r) & 255))
+            if op in ("+", "+=") and cval(r) is not None and 2 <= cval(r) <= 255 and (l.get("t") or {}).get("k") == "int" \
+                    and l.get("k") in ("Ref", "Mem"):
+                out.add(("step", cval(r)))
+        return out
+    sk_consts = probe_constants([x for bid in blocks for e in hnr.blocks[bid].elems for x in ir.walk(e)])
+    cl = probe_constants([x for b_, x in fc.all_nodes()])
+    if {k_ for k_, v_ in sk_consts} != {"byte2", "step"} or {k_ for k_, v_ in cl} != {"byte2", "step"}:
+        chk.undecided(r5, fc, fc.line, "generator and checker constants",
+                      "the probe pattern's start value and step are not found as constants on both sides (server %s, client %s)" % (
+                          sorted(sk_consts), sorted(cl)))
+    else:
+        chk.site(r5, fc, fc.line, "generator and checker constants", sk_consts == cl and len(cl) == 2, "server %s, client %s" % (sorted(sk_consts), sorted(cl)))
     # size echo: bytes 0 and 1
     an = E.analysis(fc)
     acked = [x for b, x in fc.all_nodes() if x.get("k") == "Decl" and any(d["ref"]["name"] == "acked_fragsize" for d in x["decls"])]
@@ -278,7 +295,10 @@ def fragprobe(P, E, chk):
     strs = local_strings(dt)
     lens = [cval(sk(d["init"])) for b, x in dt.all_nodes() if x.get("k") == "Decl" for d in x["decls"] if d["ref"]["name"] == "slen" and d.get("init") is not None]
     lit = strs.get("s")
-    chk.site(r5, dt, dt.line, "codec check literal", lit is not None and lens == [len(lit)], "literal %s bytes, DOWNCODECCHECK1_LEN %s" % (len(lit) if lit else None, lens))
+    if lit is None or not lens:
+        chk.undecided(r5, dt, dt.line, "codec check literal", "the expected codec-check string and its length are not local constants of %s any more" % dt.name)
+    else:
+        chk.site(r5, dt, dt.line, "codec check literal", lens == [len(lit)], "literal %s bytes, DOWNCODECCHECK1_LEN %s" % (len(lit), lens))
 
 
 def probe_last(P, E, chk, ch):
